@@ -244,7 +244,7 @@ def build_cases(tier, rng):
         cases.append(([f], "cwd", False))
         cases.append((["ok", f], rng.choice(OUT_MODES), False))
         cases.append(([f, "ok"], rng.choice(OUT_MODES), False))
-        if tier == "thorough":
+        if True:
             for m in OUT_MODES:
                 cases.append((["ok", f], m, False))
                 cases.append(([f, "ok"], m, False))
@@ -255,7 +255,7 @@ def build_cases(tier, rng):
     for f in ("no-read-fail", "exit1", "sigkill", "reply-empty", "missing-executable"):
         cases.append(([f, "ok"], "given", True))
         cases.append((["ok", f], "cwd", True))
-    for _ in range(60 if tier == "quick" else 900):
+    for _ in range(600 if tier == "quick" else 6000):
         trip = [rng.choice(names + ["ok", "ok"]) for _ in range(3)]
         cases.append((trip, rng.choice(OUT_MODES), rng.random() < 0.1))
     return cases
